@@ -19,6 +19,8 @@ def gen_cases(rng, tier, scale):
     # a slice of the call-style matrix (C13 sweeps it in full)
     for _ in range((25 if tier == 'quick' else 300) * scale):
         cases += gen_matrix(rng, maxchain, rng.randint(1, 3), 12)
+    for _ in range((40 if tier == 'quick' else 1200) * scale):           # shared Parameter objects, calls in sequence
+        cases.append(gen_shared(rng, maxchain))
     if tier == 'thorough':
         for _ in range(250 * scale):
             cases += gen_matrix(rng, maxchain, rng.randint(1, 3), 8, flask=True)
@@ -31,5 +33,5 @@ def run(tier, seed, replay=None):
                            'configurations (value_type, harness validator chains incl. chains with the first rejection at a chosen '
                            'position, required, default, harness external source / environment variable) x strict x ignore_input x '
                            '3 return_as modes x sync/async x calls (valid 88%, malformed 12%: surplus keyword, too many positionals, duplicate, '
-                           'Parameter the function lacks, name declared twice, no Parameter, strict with one undeclared argument) + a slice of the call-style matrix; distinct = whole case; non-trivial = at least one '
+                           'Parameter the function lacks, name declared twice, no Parameter, strict with one undeclared argument) + a slice of the call-style matrix + sequences of calls of functions sharing their Parameter objects; distinct = whole case; non-trivial = at least one '
                            'Parameter and at least one supplied or external value')
